@@ -44,7 +44,8 @@ def run(ctx, kspec):
         t0 = time.time()
         res_path = os.path.join(ctx.work, "kres%d.json" % gi)
         b = k.get("bounds", {}).get(ctx.tier, {})
-        strmax = b.get("strmax", k.get("strmax", 6))
+        # thorough tier: two more bytes per string
+        strmax = b.get("strmax", k.get("strmax", 6) + (2 if ctx.tier == "thorough" else 0))
         timeout_ms = 60000 if ctx.tier == "quick" else 300000
         cmd = [os.path.join(VERIF, "bin/gosym"), "-dir", REPO, "-pkg", ".", "-overlay", ov, "-run", k["harness"], "-labels", k["labels"],
                "-strings", "theory", "-strmax", str(strmax), "-splitmax", str(b.get("splitmax", k.get("splitmax", 4))), "-init",
